@@ -14,6 +14,36 @@ CHECKS = {
         "note": "Trusts numpy for nothing: the oracle is divmod arithmetic on the spec. Assumes generated datasets are valid instances of their convention.",
         "design": "5/C01",
     },
+    "C02": {
+        "technique": "property-based testing: injective data codes decoded against the spec; polygons/centres vs reference cells; STRtree hits vs brute-force scan",
+        "text": "Generated datasets of every convention (non-square, skewed, holes before valid cells, bow-tie mesh faces, variables with grid dimensions in any position, CF-decoded or raw). For every variable and every position n, element n of the flattened variable and the value selected through selector_for_index(wind_index(n)) are both compared with the value the spec stores at the reference native index; polygons, mask and face centres at n are compared with the reference geometry of that cell; spatial-index hits are compared with a brute-force scan. Exploration over bounded sizes (<= 36 cells).",
+        "note": "Assumes valid datasets. For 2-D CF grids without stored bounds only hole/centre consistency is asserted for polygons.",
+        "design": "5/C02",
+    },
+    "C03": {
+        "technique": "property-based testing: round trip ravel/wind with explicit per-element gather oracle; arbitrary linear data with coinciding dimension sizes",
+        "text": "Every variable of generated datasets (0-3 extra dimensions in any permutation) is flattened with default/custom linear dimension names and wound back by position, axis number (positive/negative) and name; arbitrary int/float/bool/datetime linear data with the linear dimension anywhere, and other dimensions sized exactly like the grid so that a wrong axis reshapes silently, is wound on every grid kind and flattened again. Oracle is an element-by-element gather, never reshape. Variables on no grid must be refused.",
+        "note": "A linear dimension name colliding with a kept dimension may be refused; silent corruption is the violation (this was a genuine defect, fixed in 9b04c93).",
+        "design": "5/C03",
+    },
+    "C04": {
+        "technique": "property-based testing: exact rational point-in-polygon oracle + brute-force scan, points derived from the case geometry",
+        "text": "For generated datasets (holes, skewed cells, concave / self-intersecting / overlapping mesh faces, > 10 cells so the STRtree has several leaves) 12-40 points per case at vertices, edge midpoints, interiors, hole interiors, a hair outside the hull and far away are looked up; the hit set comes from exact Fraction arithmetic on the spec's corners (cross-checked against polygon.intersects over all polygons) and the lookup must return its minimum, with matching native index and polygon, None on a miss, never a hole; select_point must raise exactly on misses and equal select_index otherwise.",
+        "note": "Coordinates are dyadic so exact arithmetic on the float values is ground truth. select_point vs select_index compared only when a face variable exists.",
+        "design": "5/C04",
+    },
+    "C05": {
+        "technique": "property-based testing: selected values decoded against the spec; hit/miss classification from the exact containment oracle",
+        "text": "Index lists with repeats in any order on every grid kind, custom dimension names, single-index selection; point lists mixing interior hits, boundary hits and misses under error/drop/fill through select_points and extract_dataframe with extra columns. Every value of every returned variable is compared with the spec's stored value for the requested cell in request order; variable set, geometry removal, miss reporting, row labels, fill rows and data-frame columns are all checked.",
+        "note": "Assumes at least one hit for drop/fill and at least one variable on the selected grid; custom dimension names do not collide with dataset dimensions.",
+        "design": "5/C05",
+    },
+    "C06": {
+        "technique": "property-based testing: exact comparison of polygon rings with reference cells computed from the spec; warnings inspected; bounds exact, geometry vs union",
+        "text": "All coordinate classes per convention (ascending/descending/non-uniform axes, bounds absent/contiguous off-midpoint/with gaps and in either row order, skewed 2-D grids with and without bounds, holes, twisted cells, node grids with masked regions, meshes 0/1-based with NaN/integer fill, transposed tables, bow-tie faces, coordinates as coordinates or plain variables; raw, CF-decoded and through netCDF). Each polygon ring must equal the reference corner sequence exactly, missing/invalid cells must be None with mask False and an InvalidPolygonWarning naming them, the array read-only, bounds exact and geometry equal to the union of the cells.",
+        "note": "2-D CF grids without stored bounds: validity only (the statements define no construction). Bounds/geometry asserted only when no invalid cells or stray mesh nodes exist.",
+        "design": "5/C06",
+    },
 }
 
 NOT_BUILT_REASON = "check not built yet in this session (work in progress; planned in DESIGN.md section 5)"
